@@ -145,7 +145,9 @@ def _directed_leads(workdir):
 
 
 COVER_QUICK = [(1, 2, 1, False), (1, 2, 1, True), (2, 1, 1, False)]
-COVER_THOROUGH = COVER_QUICK + [(2, 1, 1, True), (1, 3, 2, False), (1, 3, 2, True), (2, 2, 1, False), (2, 2, 2, False), (2, 2, 2, True)]
+# measured: (2,2,2) in both modes is 5.9 M transitions / 1.3 M walks - 10 min to generate, 8 min to play, and more than
+# 20 min to validate against DiodeImpl: kept out; the thorough tier covers every configuration below completely
+COVER_THOROUGH = COVER_QUICK + [(2, 1, 1, True), (1, 3, 2, False), (1, 3, 2, True), (2, 2, 1, False), (2, 2, 1, True), (3, 1, 1, False)]
 EDGE_RE = re.compile(r'^(-?\d+) -> (-?\d+) \[label="(\w+)"')
 
 
